@@ -1,6 +1,7 @@
 (* Proofs/CliProofs.v — argument checking, placement, purity (C19, C20).  TOP statements are fixed. *)
 From Coq Require Import ZArith List Bool Lia ZifyBool String.
 Require Import PyBase CliTypes GenCli GenTape TapeFacts Tape GenDisk DiskFacts Disk Cli PyFacts TapeProofs DiskDefs DiskReadProofs.
+Require Import TapeLemmas1 CliLemmas.
 Import ListNotations.
 Open Scope Z_scope.
 
@@ -12,6 +13,132 @@ Definition spec_wf (spec : clispec) : Prop :=
 Definition group_member (spec : clispec) (t : list Z) : option (list (list Z)) :=
   match find_opt t (c_opts spec) with Some o => if o_in_group o then Some (o_flags o) else None | None => None end.
 
+
+(* ---- helper lemmas for parse_accepts_only_wellformed ---- *)
+Lemma wf_find_option_like spec t o : spec_wf spec -> find_opt t (c_opts spec) = Some o -> is_option_like t = true.
+Proof.
+  intros Hwf H. apply find_opt_some in H. destruct H as (Hin & f & Hf & ->).
+  unfold spec_wf in Hwf. rewrite Forall_forall in Hwf. specialize (Hwf _ Hin).
+  rewrite Forall_forall in Hwf. apply (Hwf _ Hf).
+Qed.
+Lemma wf_not_option_member spec t : spec_wf spec -> is_option_like t = false -> group_member spec t = None.
+Proof.
+  intros Hwf H. unfold group_member. destruct (find_opt t (c_opts spec)) as [o|] eqn:E; [|reflexivity].
+  apply (wf_find_option_like spec t o Hwf) in E. congruence.
+Qed.
+
+(* what an accepted run guarantees about the tokens still to be read, given the state reached *)
+Definition pinv (spec : clispec) (ts : list (list Z)) (s : pstate) : Prop :=
+  p_unknown s = false /\
+  (forall t, In t (before_sep ts) -> is_option_like t = true -> find_opt t (c_opts spec) <> None) /\
+  (c_group_required spec = true ->
+     p_group s <> None \/ exists t fl, In t (before_sep ts) /\ group_member spec t = Some fl) /\
+  (forall t fl fl0, In t (before_sep ts) -> group_member spec t = Some fl -> p_group s = Some fl0 ->
+     concat fl0 = concat fl) /\
+  (forall t1 t2 f1 f2, In t1 (before_sep ts) -> In t2 (before_sep ts) ->
+     group_member spec t1 = Some f1 -> group_member spec t2 = Some f2 -> concat f1 = concat f2).
+
+Lemma pinv_base spec ts s : before_sep ts = [] -> p_unknown s = false ->
+  (c_group_required spec = true -> p_group s <> None) -> pinv spec ts s.
+Proof.
+  intros Hb Hu Hg. unfold pinv. rewrite Hb. split; [exact Hu|]. split; [intros t []|].
+  split; [intros Hr; left; exact (Hg Hr)|]. split; [intros t fl fl0 []|intros t1 t2 f1 f2 []].
+Qed.
+
+Lemma pinv_cons_plain spec t r s s' : is_sep t = false -> group_member spec t = None ->
+  (is_option_like t = true -> find_opt t (c_opts spec) <> None) ->
+  p_unknown s = p_unknown s' -> p_group s = p_group s' -> pinv spec r s' -> pinv spec (t :: r) s.
+Proof.
+  intros Hs Hm Ho Hu Hg (A & B & C & D & E). unfold pinv. cbn [before_sep]. rewrite Hs.
+  split; [congruence|]. split; [|split; [|split]].
+  - intros t' [<-|Hin]; [exact Ho|exact (B t' Hin)].
+  - intros Hr. destruct (C Hr) as [Hn|(t' & fl & Hin & Ht')]; [left; congruence|].
+    right. exists t', fl. split; [now right|exact Ht'].
+  - intros t' fl fl0 [<-|Hin] Ht' Hp; [congruence|]. apply (D t' fl fl0 Hin Ht'). congruence.
+  - intros t1 t2 f1 f2 [<-|H1] [<-|H2] G1 G2; try congruence. exact (E t1 t2 f1 f2 H1 H2 G1 G2).
+Qed.
+
+Lemma pinv_cons_opt spec t r s s' o : is_sep t = false -> find_opt t (c_opts spec) = Some o ->
+  o_in_group o && match p_group s with Some fl => negb (zeqb_list (concat fl) (concat (o_flags o))) | None => false end = false ->
+  p_unknown s' = p_unknown s ->
+  p_group s' = (if o_in_group o then Some (o_flags o) else p_group s) ->
+  pinv spec r s' -> pinv spec (t :: r) s.
+Proof.
+  intros Hs Hf Hc Hu Hg (A & B & C & D & E).
+  assert (Hm : group_member spec t = if o_in_group o then Some (o_flags o) else None).
+  { unfold group_member. now rewrite Hf. }
+  assert (Hnc : forall fl0, o_in_group o = true -> p_group s = Some fl0 -> concat fl0 = concat (o_flags o)).
+  { intros fl0 Hi Hp. rewrite Hi, Hp in Hc. cbn [andb] in Hc. apply negb_false_iff in Hc.
+    apply zeqb_list_eq. exact Hc. }
+  unfold pinv. cbn [before_sep]. rewrite Hs.
+  split; [congruence|]. split; [|split; [|split]].
+  - intros t' [<-|Hin]; [intros _; congruence|exact (B t' Hin)].
+  - intros Hr. destruct (o_in_group o) eqn:Hi.
+    + right. exists t, (o_flags o). split; [now left|exact Hm].
+    + destruct (C Hr) as [Hn|(t' & fl & Hin & Ht')]; [left; congruence|].
+      right. exists t', fl. split; [now right|exact Ht'].
+  - intros t' fl fl0 [<-|Hin] Ht' Hp.
+    + rewrite Hm in Ht'. destruct (o_in_group o) eqn:Hi; [|discriminate]. inversion Ht'; subst fl.
+      exact (Hnc fl0 eq_refl Hp).
+    + destruct (o_in_group o) eqn:Hi.
+      * rewrite (Hnc fl0 eq_refl Hp). exact (D t' fl (o_flags o) Hin Ht' Hg).
+      * apply (D t' fl fl0 Hin Ht'). congruence.
+  - intros t1 t2 f1 f2 [<-|H1] [<-|H2] G1 G2.
+    + congruence.
+    + rewrite Hm in G1. destruct (o_in_group o) eqn:Hi; [|discriminate]. inversion G1; subst f1.
+      exact (D t2 f2 (o_flags o) H2 G2 Hg).
+    + rewrite Hm in G2. destruct (o_in_group o) eqn:Hi; [|discriminate]. inversion G2; subst f2.
+      symmetry. exact (D t1 f1 (o_flags o) H1 G1 Hg).
+    + exact (E t1 t2 f1 f2 H1 H2 G1 G2).
+Qed.
+
+Lemma parse_loop_pinv spec : spec_wf spec -> forall n ts s vs pos, (length ts <= n)%nat ->
+  parse_loop spec ts s = POk vs pos -> pinv spec ts s.
+Proof.
+  intros Hwf. induction n as [|n IH]; intros ts s vs pos Hn H.
+  - destruct ts; [|cbn [length] in Hn; lia]. cbn [parse_loop] in H.
+    destruct (finish_ok _ _ _ _ H) as [Hu Hg]. now apply pinv_base.
+  - destruct ts as [|t r].
+    { cbn [parse_loop] in H. destruct (finish_ok _ _ _ _ H) as [Hu Hg]. now apply pinv_base. }
+    cbn [length] in Hn. cbn [parse_loop] in H.
+    assert (Hlen : (length r <= n)%nat) by lia.
+    destruct (is_sep t) eqn:Es.
+    { destruct (add_pos s r) as [s'|] eqn:Ea; [|discriminate].
+      destruct (add_pos_keeps _ _ _ Ea) as [Ku Kg]. destruct (finish_ok _ _ _ _ H) as [Hu Hg].
+      apply pinv_base; [cbn [before_sep]; now rewrite Es|congruence|]. intros Hr. rewrite <- Kg. exact (Hg Hr). }
+    destruct (is_help t) eqn:Eh; [discriminate|].
+    destruct (is_option_like t) eqn:Eo.
+    + destruct (find_opt t (c_opts spec)) as [o|] eqn:Ef.
+      * cbv zeta in H. rewrite p_group_close in H.
+        destruct (o_in_group o && match p_group s with
+                                  | Some fl => negb (zeqb_list (concat fl) (concat (o_flags o)))
+                                  | None => false end) eqn:Ec; [discriminate|].
+        destruct (o_kind o) as [d v|d|d is_int].
+        -- refine (pinv_cons_opt spec t r s _ o Es Ef Ec _ _ (IH _ _ _ _ Hlen H));
+             [apply p_unknown_close|reflexivity].
+        -- refine (pinv_cons_opt spec t r s _ o Es Ef Ec _ _ (IH _ _ _ _ Hlen H));
+             [apply p_unknown_close|reflexivity].
+        -- destruct r as [|v r']; [discriminate|].
+           destruct (is_option_like v || is_sep v) eqn:Ev; [discriminate|].
+           apply orb_false_iff in Ev. destruct Ev as [Ev1 Ev2].
+           destruct (is_int && negb (forallb is_digit v && match v with [] => false | _ :: _ => true end));
+             [destruct (forallb is_digit (skipn 1 v)); discriminate|].
+           cbn [length] in Hlen. assert (Hlen' : (length r' <= n)%nat) by lia.
+           pose proof (IH _ _ _ _ Hlen' H) as Hr'.
+           refine (pinv_cons_opt spec t (v :: r') s _ o Es Ef Ec _ _
+                     (pinv_cons_plain spec v r' _ _ Ev2 (wf_not_option_member spec v Hwf Ev1) _ eq_refl eq_refl Hr'));
+             [apply p_unknown_close|reflexivity|intros Hx; congruence].
+      * destruct (existsb (Z.eqb 61) t); [discriminate|].
+        assert (Hbad : forall s0, p_unknown s0 = true -> parse_loop spec r s0 = POk vs pos -> False).
+        { intros s0 Hu H0. destruct (IH _ _ _ _ Hlen H0) as (A & _). congruence. }
+        exfalso. destruct t as [|a [|c [|d t']]]; try (eapply Hbad; [|exact H]; reflexivity).
+        destruct (c =? dash); [|discriminate]. eapply Hbad; [|exact H]; reflexivity.
+    + destruct (add_pos s [t]) as [s'|] eqn:Ea; [|discriminate].
+      destruct (add_pos_keeps _ _ _ Ea) as [Ku Kg].
+      apply (pinv_cons_plain spec t r s s' Es (wf_not_option_member spec t Hwf Eo)); [congruence|congruence|congruence|].
+      exact (IH _ _ _ _ Hlen H).
+Qed.
+
 (* TOP (C19): a command line is accepted only if it names an action (when the parser requires
    one), never two different ones, and holds no unknown option *)
 Theorem parse_accepts_only_wellformed : forall (spec : clispec) (argv : list (list Z)) (vs : list (list Z * list Z)) (pos : list (list Z)),
@@ -20,11 +147,32 @@ Theorem parse_accepts_only_wellformed : forall (spec : clispec) (argv : list (li
   (forall t1 t2 f1 f2, In t1 (before_sep argv) -> In t2 (before_sep argv) ->
      group_member spec t1 = Some f1 -> group_member spec t2 = Some f2 -> concat f1 = concat f2) /\
   (forall t, In t (before_sep argv) -> is_option_like t = true -> find_opt t (c_opts spec) <> None).
-Admitted.
+Proof.
+  intros spec argv vs pos Hwf H. unfold parse in H.
+  destruct (parse_loop_pinv spec Hwf (length argv) argv p0 vs pos (le_n _) H) as (A & B & C & D & E).
+  split; [|split].
+  - intros Hr. destruct (C Hr) as [Hg|Hex]; [cbn [p0 p_group] in Hg; congruence|exact Hex].
+  - exact E.
+  - exact B.
+Qed.
+
+(* a decidable form of spec_wf, for the generated tables *)
+Definition spec_wfb (spec : clispec) : bool :=
+  forallb (fun o => forallb (fun f => is_option_like f && negb (is_help f) && negb (is_sep f)) (o_flags o)) (c_opts spec).
+Lemma spec_wfb_ok spec : spec_wfb spec = true -> spec_wf spec.
+Proof.
+  unfold spec_wfb, spec_wf. rewrite forallb_forall, Forall_forall. intros H o Ho.
+  specialize (H o Ho). rewrite forallb_forall in H. rewrite Forall_forall. intros f Hf.
+  specialize (H f Hf). apply andb_prop in H. destruct H as [H12 H3]. apply andb_prop in H12. destruct H12 as [H1 H2].
+  apply negb_true_iff in H2, H3. auto.
+Qed.
 
 Theorem generated_parsers_wf : spec_wf tar_cli /\ spec_wf disk_cli /\ spec_wf nl_cli /\ spec_wf prettier_cli /\ spec_wf lst2bas_cli /\ spec_wf bas2lst_cli /\
   c_group_required tar_cli = true /\ c_group_required disk_cli = true.
-Admitted.
+Proof.
+  (* finite facts about the generated tables: decided by computation *)
+  repeat split; try (apply spec_wfb_ok; vm_compute; reflexivity); vm_compute; reflexivity.
+Qed.
 
 (* TOP (C19): a rejected command line ends with status 2 and touches nothing; help ends with 0 and touches nothing *)
 Theorem rejected_command_writes_nothing : forall (argv : list (list Z)) (fs : fsmap) (is_fd : bool),
@@ -32,7 +180,10 @@ Theorem rejected_command_writes_nothing : forall (argv : list (list Z)) (fs : fs
   (parse tar_cli argv = PHelp -> cli_status (tar_main argv fs) = 0 /\ cli_effects (tar_main argv fs) = []) /\
   (parse disk_cli argv = PError -> cli_status (disk_main is_fd argv fs) = 2 /\ cli_effects (disk_main is_fd argv fs) = []) /\
   (parse disk_cli argv = PHelp -> cli_status (disk_main is_fd argv fs) = 0 /\ cli_effects (disk_main is_fd argv fs) = []).
-Admitted.
+Proof.
+  intros argv fs is_fd. unfold tar_main, disk_main.
+  split; [|split; [|split]]; intros H; rewrite H; split; reflexivity.
+Qed.
 
 (* TOP (C19): a wrong archive extension is refused by the disk tools before anything is read or written *)
 Theorem wrong_extension_writes_nothing : forall (argv : list (list Z)) (fs : fsmap) (is_fd : bool) vs archive sources,
@@ -41,7 +192,12 @@ Theorem wrong_extension_writes_nothing : forall (argv : list (list Z)) (fs : fsm
    | Some e => zeqb_list (map lower_char e) (if is_fd then str "fd"%string else str "sd"%string) = false
    | None => True end) ->
   cli_status (disk_main is_fd argv fs) <> 0 /\ cli_effects (disk_main is_fd argv fs) = [].
-Admitted.
+Proof.
+  intros argv fs is_fd vs archive sources Hp Hx. unfold disk_main. rewrite Hp.
+  destruct (value_of (str "action"%string) vs) as [a|]; [|split; [discriminate|reflexivity]].
+  destruct (extension_of archive) as [e|]; [|split; [discriminate|reflexivity]].
+  rewrite Hx. cbn [negb]. split; [discriminate|reflexivity].
+Qed.
 
 (* TOP (C19): extraction writes under --into when given, else beside the archive; list writes nothing *)
 Theorem extract_placement : forall (argv : list (list Z)) (fs : fsmap) (is_fd : bool) (e : effect),
@@ -56,14 +212,35 @@ Theorem extract_placement : forall (argv : list (list Z)) (fs : fsmap) (is_fd : 
      let target := match value_of (str "into"%string) vs with Some d => d | None => dirname archive end in
      exists i : nat, (i < 4)%nat /\
        (e = MkDir (side_dir target i) \/ exists l c, e = WriteFile (path_join (side_dir target i) l) c /\ existsb (Z.eqb 47) l = false)).
-Admitted.
+Proof.
+  intros argv fs is_fd e. split.
+  - intros Hin vs archive sources Hp Ha target. unfold tar_main in Hin. rewrite Hp, Ha in Hin.
+    rewrite act_extract_create in Hin.
+    destruct (fs_read fs archive) as [raw|]; [|destruct Hin].
+    rewrite act_extract_list, act_extract_extract in Hin. cbn [cli_effects] in Hin.
+    apply tape_extract_confined in Hin.
+    destruct Hin as [[He _]|(l & c & He & Hl & _)]; [left; exact He|].
+    right. exists l, c. split; [exact He|exact Hl].
+  - intros Hin vs archive sources Hp Ha target. unfold disk_main in Hin. rewrite Hp, Ha in Hin.
+    destruct (extension_of archive) as [x|]; [|destruct Hin].
+    destruct (negb (zeqb_list (map lower_char x) (if is_fd then str "fd"%string else str "sd"%string))); [destruct Hin|].
+    rewrite act_extract_create in Hin.
+    destruct (fs_read fs archive) as [raw|]; [|destruct Hin].
+    rewrite act_extract_add, act_extract_list, act_extract_extract in Hin. cbn [cli_effects] in Hin.
+    apply disk_extract_confined in Hin.
+    destruct Hin as (i & Hi & [He|(l & c & He & Hl & _)]); exists i; (split; [exact Hi|]); [left; exact He|].
+    right. exists l, c. split; [exact He|exact Hl].
+Qed.
 
 (* TOP (C19): every documented `python3 -m <tool>` and every declared console script resolves to an
    existing module defining its entry function, through package __init__ files whose relative
    imports exist (a finite check on the generated tables, decided by computation) *)
 Theorem entry_points_resolve : forallb snd documented_modules = true /\ forallb snd declared_scripts = true /\
   length documented_modules = 7%nat.
-Admitted.
+Proof.
+  (* finite facts about the generated tables: decided by computation *)
+  repeat split; vm_compute; reflexivity.
+Qed.
 
 (* ---------------- C20 ---------------- *)
 (* what a tape source contributes: its catalogue fields and the bytes read *)
@@ -78,13 +255,20 @@ Theorem tape_create_pure : forall (fs1 fs2 : fsmap) (s1 s2 : list (list Z)) (v1 
   map (tape_key fs1) s1 = map (tape_key fs2) s2 ->
   written_bytes (o_effects (tar_create v1 fs1 a1 s1)) = written_bytes (o_effects (tar_create v2 fs2 a2 s2)) /\
   o_status (tar_create v1 fs1 a1 s1) = o_status (tar_create v2 fs2 a2 s2).
-Admitted.
+Proof.
+  intros fs1 fs2 s1 s2 v1 v2 a1 a2 H.
+  destruct (tar_create_sim v1 v2 fs1 fs2 a1 a2 s1 s2 H) as (Hs & [[E1 E2]|(c & E1 & E2)]);
+    rewrite E1, E2; split; [reflexivity|exact Hs|reflexivity|exact Hs].
+Qed.
 
 (* the catalogue fields of a source depend on its base name only *)
 Theorem tape_fields_from_basename : forall (dir base : list Z),
   existsb (Z.eqb 47) base = false ->
   fst (source_fields (dir ++ [47] ++ base)) = fst (source_fields base).
-Admitted.
+Proof.
+  intros dir base H. apply source_fields_basename.
+  now rewrite (basename_join dir base H), (basename_no_dir base H).
+Qed.
 
 Definition disk_key (fs : fsmap) (src : list Z) : bool * option (list Z * list Z * Z * bool * list Z) * bool :=
   (zeqb_list (upper_ascii (basename src)) eos_marker, source_item fs src,
@@ -97,14 +281,23 @@ Theorem disk_create_pure : forall (is_fd : bool) (fs1 fs2 : fsmap) (s1 s2 : list
   written_bytes (d_effects (disk_create is_fd v1 fs1 a1 s1)) = written_bytes (d_effects (disk_create is_fd v2 fs2 a2 s2)) /\
   d_status (disk_create is_fd v1 fs1 a1 s1) = d_status (disk_create is_fd v2 fs2 a2 s2) /\
   d_log (disk_create is_fd v1 fs1 a1 s1) = d_log (disk_create is_fd v2 fs2 a2 s2).
-Admitted.
+Proof.
+  intros is_fd fs1 fs2 s1 s2 v1 v2 a1 a2 H. unfold disk_create.
+  destruct (load_image is_fd []) as [img|e]; [|repeat split].
+  destruct (inject_perform_sim is_fd v1 v2 true fs1 fs2 a1 a2 img s1 s2 H) as (Hs & Hl & [[E1 E2]|(c & E1 & E2)]);
+    rewrite E1, E2; (split; [reflexivity|]); split; assumption.
+Qed.
 
 Theorem disk_fields_from_basename : forall (fs : fsmap) (dir base : list Z),
   existsb (Z.eqb 47) base = false ->
   let '(n1, e1, o1, _) := split_source (dir ++ [47] ++ base) in
   let '(n2, e2, o2, _) := split_source base in
   n1 = n2 /\ e1 = e2 /\ o1 = o2.
-Admitted.
+Proof.
+  intros fs dir base H.
+  destruct (split_source_join dir base H) as (n & e & o & c1 & c2 & E1 & E2).
+  rewrite E1, E2. repeat split.
+Qed.
 
 (* TOP (C20): list never writes; what extract writes lies one level below the archive's directory
    (disk: in a sideN sub-directory, so never the archive itself) or directly in it (tape) *)
@@ -114,4 +307,25 @@ Theorem reads_write_nothing_else : forall (v is_fd : bool) (raw arch : list Z) (
      exists (i : nat) l, (i < 4)%nat /\ p = path_join (side_dir (dirname arch) i) l /\ existsb (Z.eqb 47) l = false) /\
   (In (WriteFile p c) (o_effects (tar_extract v None arch raw)) ->
      exists l, p = path_join (dirname arch) l /\ existsb (Z.eqb 47) l = false).
-Admitted.
+Proof.
+  intros v is_fd raw arch p c.
+  split; [apply tar_list_no_effects|]. split; [apply disk_list_effects|]. split.
+  - intros Hin. apply disk_extract_confined in Hin.
+    destruct Hin as (i & Hi & [He|(l & c' & He & Hl & _)]); [discriminate|].
+    inversion He; subst. exists i, l. repeat split; assumption.
+  - intros Hin. apply tape_extract_confined in Hin.
+    destruct Hin as [[He _]|(l & c' & He & Hl & _)]; [discriminate|].
+    inversion He; subst. exists l. split; [reflexivity|exact Hl].
+Qed.
+
+Print Assumptions parse_accepts_only_wellformed.
+Print Assumptions generated_parsers_wf.
+Print Assumptions rejected_command_writes_nothing.
+Print Assumptions wrong_extension_writes_nothing.
+Print Assumptions extract_placement.
+Print Assumptions entry_points_resolve.
+Print Assumptions tape_create_pure.
+Print Assumptions tape_fields_from_basename.
+Print Assumptions disk_create_pure.
+Print Assumptions disk_fields_from_basename.
+Print Assumptions reads_write_nothing_else.
